@@ -25,6 +25,12 @@ Inductive case :=
   (* fresh: the payload's counter was not yet accepted (replay window, C11/C12); delivered: the sender's plaintext
      reached the receiver's tun; to_inner_owner: everything delivered / marked live is attributed to the tunnel that
      owns the payload's index; mask: effect set of model/Outside.v at the receiver *)
+| CCross (steps : list (N * bool * bool * bool * bool))
+  (* a session of genuine end-to-end frames of one sender arriving at the receiver in an adversarial order over both
+     paths. Per arrival: the frame's end-to-end counter; whether it came through the relay (the relay packet as
+     forwarded, or the frame wrapped again by the relay) or as the bare inner frame sent directly from an arbitrary
+     address; whether the sender's plaintext reached the tun; whether everything that moved is attributed to the
+     sender's tunnel; whether the tunnel's underlay remote changed *)
 | CView (seen markers leaks relay_tun : N).
   (* the relay received [seen] datagrams; [leaks] of the [markers] plaintext markers occur in them; [relay_tun]
      packets reached the relay's own tun *)
@@ -64,6 +70,25 @@ Definition e_recverr : N := 8.
 (* liveness / window of the (authentic) relay tunnel, or a recv_error sent back: nothing of the end-to-end tunnel moved *)
 Definition quiet (mask : N) : bool := N.ldiff mask (N.lor (2 ^ e_live) (N.lor (2 ^ e_win) (2 ^ e_recverr))) =? 0.
 
+(* the property on the observations alone: one end-to-end counter is delivered at most once whatever the path; what is
+   delivered is the sender's plaintext attributed to the sender; a refused copy does not roam the tunnel *)
+Fixpoint cross_spec (delivered_before : list N) (l : list (N * bool * bool * bool * bool)) : bool :=
+  match l with
+  | [] => true
+  | (c, _, d, own, roam) :: r =>
+      implb d (negb (existsb (N.eqb c) delivered_before)) && own && implb roam d &&
+      cross_spec (if d then c :: delivered_before else delivered_before) r
+  end.
+
+(* the model: every frame is authentic, so the first arrival of a counter is accepted (one window per tunnel, C11/C12)
+   and every later one refused; an accepted direct frame roams the tunnel (handleHostRoaming), a relayed one never *)
+Fixpoint cross_model (arrived : list N) (l : list (N * bool * bool * bool * bool)) : bool :=
+  match l with
+  | [] => true
+  | (c, relayed, d, _, roam) :: r =>
+      Bool.eqb d (negb (existsb (N.eqb c) arrived)) && Bool.eqb roam (d && negb relayed) && cross_model (c :: arrived) r
+  end.
+
 Definition check_case (c : case) : list N :=
   match c with
   | CRelay k fresh delivered owner mask =>
@@ -76,6 +101,7 @@ Definition check_case (c : case) : list N :=
       (* code 1: the symbolic endpoint's verdict *)
       flag 1 (Bool.eqb delivered (fresh && is_some (model_verdict k))) ++
       flag 1 (implb delivered (match model_verdict k with Some (who, p) => (who =? 1001) && term_eqb p (data 5) | None => false end))
+  | CCross steps => flag 2 (cross_spec [] steps) ++ flag 1 (cross_model [] steps)
   | CView seen markers leaks relay_tun =>
       flag 2 (leaks =? 0) ++ flag 2 (relay_tun =? 0) ++ flag 3 (negb (seen =? 0) && negb (markers =? 0))
   end.
